@@ -44,6 +44,9 @@ func newC34World() *c34World {
 	for _, s := range snippets34() {
 		w.snips[s.Name] = s
 	}
+	for _, s := range castSnippets34() {
+		w.snips[s.Name] = s
+	}
 	for _, o := range txOps34() {
 		w.ops[o.Name] = o
 	}
@@ -222,6 +225,26 @@ func runC34(env *mc.Env) {
 			differing[s.Name] = true
 			mu.Unlock()
 		}
+	})
+	// 1b. the cast grid (each combination alone; the checker decides which ones are programs)
+	grid := castSnippets34()
+	env.R.Set("castgrid_generated", len(grid))
+	mc.ParallelFor(env, len(grid), func(i int) {
+		g := grid[i]
+		c := c34Case{Level: "script", Parts: []string{g.Name}}
+		d, detail, agree, steps := w.exec(c)
+		env.R.EvalN(int64(2 * steps))
+		if d != "" {
+			report(c, "castgrid:"+g.Name, d, detail)
+			return
+		}
+		if strings.Contains(agree.kind, "CheckerError") || strings.Contains(agree.kind, "ParsingCheckingError") {
+			env.R.Add("castgrid_rejected_by_checker", 1)
+			return
+		}
+		env.R.Add("castgrid_accepted", 1)
+		env.R.Nontrivial("g|" + g.Name)
+		env.R.Class("castgrid:"+outcomeClass(agree), func() any { return c })
 	})
 	// 2. every ordered pair of snippets that agree on their own (a pair containing a snippet that
 	//    already differs alone would only repeat that difference)
